@@ -635,6 +635,10 @@ func c19CallKey(c c19Call) string {
 // ---------- the property ----------
 
 func (c19) Exec(seed int64, i int, tier string) Record {
+	if i%16 == 5 {
+		// class long-path-repeated (b16_probes.go): one path of more than 2100 PEG tokens parsed two or three times in a row
+		return b16LongRepeat(CaseRng(seed, "C19/b16", i))
+	}
 	hist := c19History(seed, i)
 	rec := Record{Info: map[string]interface{}{}, Tags: []string{fmt.Sprintf("hist-len:%d", len(hist))}}
 	var descr []string
